@@ -260,15 +260,25 @@ func processPoints(points []Point, closed bool) (
 			continue
 		}
 		a = points[i]
+		ci := i + 2
 		if i == n-1 {
 			b = points[0]
-			c = points[1]
+			ci = 1
 		} else if i == n-2 {
 			b = points[i+1]
-			c = points[0]
+			ci = 0
 		} else {
 			b = points[i+1]
-			c = points[i+2]
+		}
+		c = points[ci]
+		// the corner at b is formed with the next point that differs from b
+		// (a zero-length edge a-b has no corner of its own)
+		for k := 0; a != b && c == b && k < n; k++ {
+			ci++
+			if ci >= n {
+				ci = 0
+			}
+			c = points[ci]
 		}
 
 		// process the clockwise detection
